@@ -87,3 +87,83 @@ Lemma hash_shift (B : Type) (byte : N -> B) (Hb : list B -> list B) (a b : list 
   Hb (encG B byte (HFull (a ++ [x]) b i h)) = Hb (encG B byte (HFull a (x :: b) i h)).
 Proof. rewrite enc_shift. reflexivity. Qed.
 
+
+(* ------------------------------------------------------------------------------------------------------------------
+   What the length check buys: every hash input the checked verifier forms has children that satisfy okD, provided
+   the hash function's own outputs do (for SHA-256: 32 bytes, Base/Sha256Len.v).  [inputs c o] lists the hash inputs
+   formed while [interp c o] runs; [interp_inputs] shows it is the same computation. *)
+Section Inputs.
+  Variables D E V : Type.
+  Variable H : hin D E V -> D.
+  Variable okD : D -> bool.
+  Notation interp := (interp D E V H).
+
+  Fixpoint interp_tr (c : cache D) (o : op E) : option (D * list (hin D E V)) :=
+    match o with
+    | OLeaf i v => let x := match v with Some e => HLeaf e i | None => HBare i O end in Some (H x, [x])
+    | OInner i h l r =>
+        match interp_tr c l with
+        | None => None
+        | Some (lh, tl) =>
+            match interp_tr c r with
+            | None => None
+            | Some (rh, tr) => Some (H (HFull lh rh i h), tl ++ tr ++ [HFull lh rh i h])
+            end
+        end
+    | OPartial i h l =>
+        match interp_tr c l with
+        | None => None
+        | Some (lh, tl) => Some (H (HPart lh i h), tl ++ [HPart lh i h])
+        end
+    | OGet i h => match c (i, h) with Some d => Some (d, []) | None => None end
+    | OPut o | OMutate o | OCollect o => interp_tr c o
+    end.
+
+  (* the traced interpreter computes what the interpreter computes *)
+  Lemma interp_tr_fst (c : cache D) (o : op E) : option_map fst (interp_tr c o) = interp c o.
+  Proof.
+    induction o as [i v|i h l IHl r IHr|i h l IHl|i h|o IH|o IH|o IH]; cbn [interp_tr HistModel.interp].
+    - destruct v; reflexivity.
+    - rewrite <- IHl, <- IHr. destruct (interp_tr c l) as [[lh tl]|]; cbn [option_map fst]; [|reflexivity].
+      destruct (interp_tr c r) as [[rh tr]|]; reflexivity.
+    - rewrite <- IHl. destruct (interp_tr c l) as [[lh tl]|]; reflexivity.
+    - destruct (c (i, h)); reflexivity.
+    - exact IH.
+    - exact IH.
+    - exact IH.
+  Qed.
+
+  Definition wf_children (x : hin D E V) : bool :=
+    match x with
+    | HPart l _ _ => okD l
+    | HFull l r _ _ => okD l && okD r
+    | _ => true
+    end.
+
+  Hypothesis H_ok : forall x, okD (H x) = true.
+
+  Theorem checked_inputs_wf (c : cache D) (o : op E) r tr :
+    interp_tr (checked okD c) o = Some (r, tr) ->
+    okD r = true /\ Forall (fun x => wf_children x = true) tr.
+  Proof.
+    revert r tr.
+    induction o as [i v|i h l IHl rr IHr|i h l IHl|i h|o IH|o IH|o IH]; intros r tr Heq; cbn [interp_tr] in Heq.
+    - injection Heq as <- <-. split; [apply H_ok|]. constructor; [destruct v; reflexivity|constructor].
+    - destruct (interp_tr (checked okD c) l) as [[lh tl]|]; [|discriminate].
+      destruct (interp_tr (checked okD c) rr) as [[rh tr']|]; [|discriminate].
+      injection Heq as <- <-.
+      destruct (IHl lh tl eq_refl) as [Hl Htl]. destruct (IHr rh tr' eq_refl) as [Hr Htr].
+      split; [apply H_ok|].
+      apply Forall_app. split; [exact Htl|]. apply Forall_app. split; [exact Htr|].
+      constructor; [cbn [wf_children]; rewrite Hl, Hr; reflexivity|constructor].
+    - destruct (interp_tr (checked okD c) l) as [[lh tl]|]; [|discriminate].
+      injection Heq as <- <-. destruct (IHl lh tl eq_refl) as [Hl Htl].
+      split; [apply H_ok|]. apply Forall_app. split; [exact Htl|].
+      constructor; [cbn [wf_children]; exact Hl|constructor].
+    - destruct (checked okD c (i, h)) as [d|] eqn:Hc; [|discriminate]. injection Heq as <- <-.
+      split; [exact (proj1 (checked_ok D okD c (i, h) d Hc))|constructor].
+    - exact (IH r tr Heq).
+    - exact (IH r tr Heq).
+    - exact (IH r tr Heq).
+  Qed.
+End Inputs.
